@@ -24,6 +24,7 @@ from automata.regex import parser as rxparser
 from automata.regex.postfix import tokens_to_postfix, validate_tokens
 
 from harness import rx_common as R
+from harness import rx_deep as D
 from harness import rx_sequences as S
 from harness.common import Ctx, InfraError, Toks, call, toks
 
@@ -34,6 +35,16 @@ RULE = ("cases = (AST of the documented syntax, concrete rendering with redundan
         "touched (validate / a tiny compile / a call that must raise first, then from_regex with the explicit or the default "
         "alphabet, sometimes again / over Σ∪{x} / a second expression; `()` in 70 % of the expressions), every compiled NFA judged "
         "by both oracles and compared with the model; then "
+        "round 7, DEEP / LARGE expressions (harness/rx_deep.py): 22 texts of up to 9000 characters per run built from small "
+        "specs — a concatenation / an alternation of 1100–3000 literals, parentheses nested 300–2000 deep (left-nested and "
+        "right-nested a(b(a(…)))), 140–300 chained postfix operators, bounds a{k,k} a{0,k} a{,k} (ab){k,} a{k-d,k} with k in "
+        "1100–3000 (also with blanks / leading zeros inside the braces), a unit of 150–400 literals repeated {2,3}, shuffle "
+        "chains (1100–3000 empty groups; a{k,k}^b; a{k,k}^b{k,k}; 9–10 distinct literals), intersection chains (1100–3000 "
+        "operands; a{0,k}&a{m,}), 1100–1500 wildcards / groups (a|b), thousands of blanks — over the default, the exact and "
+        "a larger explicit alphabet; judged by a CLOSED FORM of the language (lengths, counts, one fixed word) on words "
+        "around the thresholds through the real accepts_input, plus regex.validate, NFA.validate and a structural reading of "
+        "validity; no model round trip for these; each spec also runs as a small twin (parameters 2–4) where the closed form "
+        "must equal the set semantics of the AST and the twin goes through both language oracles and the model; then "
         "corpus of past defects, then every AST of depth ≤1 over {a,b} with all bounds from {∅,0,1,2,3} in three "
         "renderings (thorough: depth ≤2 with a reduced bound set), then shaped random ASTs of depth ≤4 with bounds "
         "from {∅,0..6,007,10,12} over alphabets of 1–7 symbols incl. the characters 1 , - é 𝒳; "
@@ -47,12 +58,22 @@ ASSUMPTIONS = [
     "the property is about inputs, so no result may depend on earlier calls: a failing case is re-run as the first call of a "
     "fresh interpreter; if it does not fail there its replay is the recorded calls of the run over the same alphabet "
     "(else all recorded calls) followed by the case",
-    "repetition bounds in generated cases are ≤12 (the theorems have no bound); NFAs with more than 140 states are "
-    "skipped (counted, and reported as a note)",
+    "repetition bounds in the small generated cases are ≤12 (the theorems have no bound); NFAs with more than 140 states are "
+    "skipped there (counted, and reported as a note)",
+    "deep / large family: the verdict is a closed form of the language written from the construction parameters and probed "
+    "on ~7 words per instance around the thresholds (not an exact language comparison); the Lean model is not consulted on "
+    "these sizes; alternations of more than 1300 literals are read by an own walk of the compiled table because the "
+    "library's lambda closures are quadratic on their ε-chain; sizes the unchanged library cannot build in seconds are "
+    "excluded and named in the stats (intersection chains of multi-symbol or starred operands: exponential state count; "
+    "more than 300 chained postfix operators: cubic deep copies)",
 ]
 EXPLANATION = ("C10_* theorems: the builder model's NFA accepts exactly den(e) for every AST, the pipeline "
                "lexer→validator→concat insertion→shunting-yard→postfix evaluation yields that builder run; "
-               "this run ties the model to the code stage by stage and evaluates the property itself on the real NFA.")
+               "this run ties the model to the code stage by stage and evaluates the property itself on the real NFA. "
+               "The theorems hold for expressions of every size; the code is only tied to the model on small ones, so a "
+               "deep / large family additionally compiles expressions with thousands of tokens, nesting depth up to 2000 "
+               "and bounds up to 3000 through the real from_regex and judges them by closed forms (a size threshold in the "
+               "code — recursion limit, bounded cache, fixed buffer, cut-off — is an in-domain failing input).")
 
 MAX_STATES = 140
 
@@ -325,9 +346,11 @@ def _stages_step(st: dict):
 
 def judge_program_json(text: str):
     """Entry point of the fresh-interpreter confirmation and of `replay`: run a recorded program of calls through the
-    real library; every from_regex step that carries an AST is judged by the two language oracles."""
+    real library; every from_regex step that carries an AST is judged by the two language oracles, every step of the
+    deep family (op "deep": spec + probe words) by its closed form."""
     try:
-        return S.judge_steps(json.loads(text), language=_language, extra_ops={"stages": _stages_step})
+        return S.judge_steps(json.loads(text), language=_language,
+                             extra_ops={"stages": _stages_step, "deep": lambda st: D.judge_step(st, deep_guard)})
     except S.Skip:
         return []
 
@@ -382,6 +405,160 @@ def _rewrite(rng, e):
     return ("star", e)
 
 
+
+# ---------------------------------------------------------------------------------------------------------------
+# Round 7: DEEP / LARGE expressions.  Everything above generates expressions of ≤ 14 AST nodes with bounds ≤ 12:
+# a change that only breaks beyond a SIZE THRESHOLD — a loop of the lexer / validator / shunting-yard / postfix
+# evaluation / builder rewritten as recursion (Python gives up near 1000 frames), a bare functools.lru_cache
+# (128 entries) or a fixed-size buffer on a helper, an early cut-off of a bound or of the text, a quadratic copy —
+# is invisible there.  This family compiles a handful of expressions of 1000–9000 characters through the real
+# NFA.from_regex: long concatenations / alternations, parentheses nested up to 2000 deep (left and right), chains of
+# postfix operators, repetition bounds in the thousands, shuffle / intersection chains, long runs of blanks
+# (harness/rx_deep.py).  Their languages are known in CLOSED FORM from the construction parameters, so the verdict
+# needs neither the library nor the Lean model: NO model round trip is made for these cases (stat
+# `deep:closed_form_oracle_no_model_round_trip`).  Per instance: from_regex must return, regex.validate must accept
+# the text, the returned NFA must pass its own validate() and an independent structural reading of "valid NFA over
+# the alphabet", and the real accepts_input must agree with the closed form on words around the thresholds (the
+# word itself, one symbol less / more / changed, the bounds ± 1, a foreign symbol).  The closed form is tied to the
+# module's oracles by SMALL TWINS: the same spec with parameters 2–4 is (a) compared with the set semantics of its
+# AST on every word up to the brute-force length and (b) sent through check_case — both language oracles on the
+# real NFA and the full model correspondence.
+# A wrong answer is re-asked on a newly built instance, alone; its replay is the spec + that one probe word, and
+# settle_replays confirms it in a fresh interpreter like every other failure.  Every library call runs under a
+# wall-clock / memory watchdog, so "no answer" is an observation.
+DEEP_TIMEOUT_S = 20
+DEEP_STATE = dict(timeouts=0)
+
+
+def deep_guard(f):
+    from harness.dfa_query_lib import guarded
+    r = guarded(f, DEEP_TIMEOUT_S)
+    if r == ("err", "_Timeout"):
+        DEEP_STATE["timeouts"] += 1
+    return r
+
+
+def deep_plan(rng, thorough: bool) -> list:
+    """Specs of one run.  Sizes measured on the unchanged library (notes/C10.md): 1100–3000 where from_regex and the
+    reader are linear; alternation through the real reader ≤ 1200 (its lambda closures are quadratic on the ε-chain
+    of the union states), larger ones through an own walk of the compiled table; postfix-operator chains 140–300
+    (repeat() deep-copies the whole fragment per operator: cubic for '*')."""
+    sig = lambda: rng.choice(["default", "explicit", "larger"])
+    r = rng.randint
+    plan = [
+        dict(kind="cat", n=r(1100, 3000), style=rng.choice(["plain", "plain", "blank", "tab"]), sigma=sig()),
+        dict(kind="alt", n=r(1100, 1200), style="plain", sigma=rng.choice(["default", "explicit"])),
+        dict(kind="alt", n=r(2000, 3000), style=rng.choice(["plain", "blank"]), sigma=sig()),
+        dict(kind="nest", n=r(300, 2000), sigma=sig()),
+        dict(kind="nest", n=r(1100, 2000), sigma=sig()),
+        dict(kind="rnest", n=r(1100, 2000), sigma=sig()),
+        dict(kind="chain", n=r(140, 160), ops=["*", "?"], sigma=rng.choice(["explicit", "larger"])),
+        dict(kind="chain", n=r(200, 300), ops=rng.choice([["?"], ["+"], ["{1,1}"], ["+", "{1,}"], ["?", "{0,1}", "{,1}"]]),
+             sigma=sig()),
+        dict(kind="rep", n=0, unit="a", lo=None, hi=None, pad=rng.random() < 0.4, sigma=sig()),     # exact, filled below
+        dict(kind="rep", n=0, unit="a", lo=rng.choice([0, None]), hi=r(1100, 3000), pad=rng.random() < 0.3, sigma=sig()),
+        dict(kind="rep", n=0, unit="ab", lo=r(600, 1500), hi=None, pad=rng.random() < 0.3, sigma=sig()),
+        dict(kind="rep", n=0, unit=rng.choice(["a", "ab"]), lo=None, hi=None, pad=False, sigma=sig()),   # window, filled below
+        dict(kind="rep", n=0, unit=["abc", r(150, 400)], lo=r(2, 3), hi=rng.choice([3, 4, None]), pad=False, sigma=sig()),
+        dict(kind="shuf_eps", n=r(1100, 3000), m=8, sigma=sig()),
+        dict(kind="shuf2", n=r(600, 1200), m=1, sigma=sig()),
+        dict(kind="shuf2", n=r(30, 40), m=r(30, 40), sigma=sig()),
+        dict(kind="shuf_lits", n=r(9, 10), sigma=sig()),
+        dict(kind="and_chain", n=r(1100, 3000), sigma=sig()),
+        dict(kind="and_window", n=0, m=0, sigma=sig()),
+        dict(kind="wild", n=r(1100, 1500), sigma=rng.choice(["explicit", "larger"])),
+        dict(kind="cat_alts", n=r(1100, 1500), sigma=sig()),
+        dict(kind="pad", n=r(1100, 2000), sigma=sig()),
+    ]
+    k = r(1100, 3000)
+    plan[8].update(lo=k, hi=k)
+    k = r(1100, 1500)
+    plan[11].update(lo=k - r(1, 100), hi=k)
+    k = r(1100, 1200)
+    plan[18].update(n=k, m=k - r(1, 100))
+    for s in plan:
+        if s["kind"] == "rep":
+            s["n"] = max(s["lo"] or 0, s["hi"] or 0) if isinstance(s["unit"], str) else s["unit"][1]
+    if thorough:
+        plan = plan + [dict(s, sigma=sig()) for s in deep_plan(rng, False)] + [
+            dict(kind="chain", n=r(200, 300), ops=o, sigma=sig()) for o in (["?"], ["+"], ["{1,1}"], ["+", "{1,}"], ["{0,}", "?"])]
+    return plan
+
+
+def deep_twin(ctx: Ctx, spec: dict):
+    """The closed form against the module's set-semantics oracle on a small twin, then the twin through check_case
+    (both language oracles on the real NFA + the model correspondence)."""
+    t = D.twin_spec(spec, ctx.rng)
+    inst = D.DeepRx(t)
+    e = inst.ast()
+    sig = sorted(inst.expected_symbols() | inst.alpha)
+    n = n_words(sig)
+    want = R.den_words(e, sig, n)
+    for w in R.words_upto(sig, n):
+        if inst.member(w) != (w in want):
+            raise InfraError(f"C10 deep family: closed form and set semantics disagree on {w!r} for {inst.re!r} (spec {t})")
+    for p in inst.probes:
+        w = D.word(p)
+        if set(w) <= set(sig) and len(w) <= 7 and inst.member(w) != R.matches(e, w, sig):
+            raise InfraError(f"C10 deep family: closed form and structural membership disagree on {w!r} for {inst.re!r}")
+    ctx.stat("deep:small_twin")
+    ctx.stat("deep:small_twin_closed_form_equals_set_semantics")
+    sigma = inst.sigma()
+    check_case(ctx, inst.re, None if sigma is None else sorted(sigma), e, "deep_twin")
+
+
+def check_deep(ctx: Ctx, spec: dict):
+    if DEEP_STATE["timeouts"] >= 2 or ctx.stats.get("deep:failing_instance", 0) >= 4:
+        ctx.stat("deep:skipped_after_failures")
+        return
+    inst = D.DeepRx(spec)
+    ctx.stat(f"deep:{inst.kind}")
+    ctx.stat(f"deep:text_length:{len(inst.re) // 1000 * 1000}+")
+    ctx.stat(f"deep:sigma_{spec.get('sigma', 'default')}")
+    ctx.stat("deep:closed_form_oracle_no_model_round_trip")
+    ctx.case(("deep", json.dumps(spec, sort_keys=True)))
+    r = D.run_instance(inst, None, deep_guard, count=lambda name: ctx.stat("deep:" + name))
+    if ctx.stats.get(f"deep:{inst.kind}", 0) == 1:
+        ctx.sample(dict(deep=inst.desc, about=inst.about, text_length=len(inst.re), alphabet=spec.get("sigma"),
+                        probes=[D.short(p) + (" ∈" if inst.member(D.word(p)) else " ∉") for p in inst.probes[:6]],
+                        verdict="ok" if r is None else r[0]))
+    if r is None:
+        return
+    # re-confirm on a newly built instance, the failing query alone
+    step = dict(op="deep", spec=spec, probes=[] if r[1] is None else [r[1]])
+    again = D.judge_step(step, deep_guard)
+    if not again:
+        ctx.stat("deep:failure_not_reproduced")
+        ctx.corr_diff("deep-not-reproduced", dict(spec=spec, probe=r[1]), r[0], "the closed form's answer on the second try")
+        return
+    ctx.stat("deep:failing_instance")
+    n = len(ctx.prop_fails)
+    CALLS.append(step)
+    ctx.prop_fail(again[0], dict(kind="sequence", steps=[step], failing_step=0, detail=dict(deep=inst.desc)), None)
+    if len(ctx.prop_fails) > n:
+        ctx.prop_fails[-1]["_tail"] = [step]
+        ctx.prop_fails[-1]["_calls"] = len(CALLS)
+
+
+def deep_family(ctx: Ctx):
+    plan = deep_plan(ctx.rng, ctx.thorough())
+    for spec in plan:
+        deep_twin(ctx, spec)
+    for spec in plan:
+        check_deep(ctx, spec)
+    # measured on the unchanged library, in the property's domain, NOT asked: the product of intersection() keeps the
+    # independent ε-moves of both operands, so the state count doubles with every two operands of a chain
+    # 'ab&ab&…&ab' (14 operands: 16 386 states, 20: no answer within minutes) and with every operand of 'a*&a*&…'
+    # (10 operands: 2 047 states); 'a' + '*?' * 600 needs ~60 s (repeat() deep-copies the fragment per operator).
+    # The answers are right as far as they come; the sizes are excluded from the family because of their cost.
+    ctx.stat("deep:excluded:intersection_chain_of_multi_symbol_or_starred_operands(exponential_states)")
+    ctx.stat("deep:excluded:postfix_chain_beyond_300_operators(cubic_deepcopy)")
+    if DEEP_STATE["timeouts"]:
+        ctx.note(f"deep family: {DEEP_STATE['timeouts']} library call(s) gave no answer within {DEEP_TIMEOUT_S} s")
+    if ctx.stats.get("deep:skipped_after_failures", 0):
+        ctx.note(f"deep family: {ctx.stats['deep:skipped_after_failures']} instance(s) skipped after 2 time-outs / 4 failing instances")
+
+
 def settle_replays(ctx: Ctx):
     """run.py prints the failure whose replay is shortest.  A single-case replay ({regex, alphabet}) — or a program of
     calls — only stands on its own if it also fails as the FIRST thing a fresh interpreter does; otherwise the failure
@@ -412,6 +589,8 @@ def run_families(ctx: Ctx):
     rng = ctx.rng
     # 0. call sequences over fresh alphabets — FIRST, while no alphabet has been used in this process
     fresh_alphabet_sequences(ctx)
+    # 0b. deep / large expressions (closed-form oracle; small twins through check_case)
+    deep_family(ctx)
     # 1. corpus
     for e, sigma in CORPUS:
         for st in STYLES:
@@ -475,6 +654,9 @@ def run_families(ctx: Ctx):
 def search(ctx: Ctx):
     """Deeper failing-input search on the real code only (no model involved)."""
     rng = ctx.rng
+    if not ctx.stats.get("deep:failing_instance", 0):
+        for spec in deep_plan(rng, True):
+            check_deep(ctx, spec)
     for _ in range(ctx.budget(6000, 40000)):
         alpha = rng.choice(["ab", "abc", "a"])
         e = R.rand_ast(rng, alpha, rng.choice([2, 3, 4]))
@@ -505,7 +687,7 @@ def replay(ctx: Ctx, path: str) -> int:
     rp = data.get("replay", data)
     if rp.get("kind") == "sequence":
         for i, what, _detail in judge_program_json(json.dumps(rp["steps"])):
-            ctx.prop_fail(f"after {S.describe(rp['steps'], i)}: {what}", rp, None)
+            ctx.prop_fail(what if i == 0 else f"after {S.describe(rp['steps'], i)}: {what}", rp, None)
     else:
         e = to_ast(rp.get("ast")) if rp.get("ast") is not None else None
         check_case(ctx, rp["regex"], rp.get("input_symbols"), e, "replay")
